@@ -311,6 +311,14 @@ impl<F: Write + Seek> MiniAllocator<F> {
             self.directory.root_dir_entry().start_sector;
         let mini_stream_len = self.directory.root_dir_entry().stream_len;
         debug_assert_eq!(mini_stream_len % consts::MINI_SECTOR_LEN as u64, 0);
+        let Some(new_mini_stream_len) =
+            mini_stream_len.checked_add(consts::MINI_SECTOR_LEN as u64)
+        else {
+            invalid_data!(
+                "Malformed mini stream (length is {})",
+                mini_stream_len
+            );
+        };
 
         // If the mini stream doesn't have room for new mini sector, add
         // another regular sector to its chain.
@@ -332,8 +340,7 @@ impl<F: Write + Seek> MiniAllocator<F> {
                     .directory
                     .open_chain(mini_stream_start_sector, SectorInit::Zero)?
                     .len();
-                if mini_stream_len + consts::MINI_SECTOR_LEN as u64 > chain_len
-                {
+                if new_mini_stream_len > chain_len {
                     self.directory.extend_chain(
                         mini_stream_start_sector,
                         SectorInit::Zero,
@@ -345,7 +352,7 @@ impl<F: Write + Seek> MiniAllocator<F> {
         // Update length of mini stream in root directory entry.
         self.directory.with_root_dir_entry_mut(|dir_entry| {
             dir_entry.start_sector = new_start_sector;
-            dir_entry.stream_len += consts::MINI_SECTOR_LEN as u64;
+            dir_entry.stream_len = new_mini_stream_len;
         })
     }
 
